@@ -72,7 +72,8 @@ func Skew(v Vec) (M *Mat) {
 }
 
 // Mul takes the matrix product of a and b, placing the result in the receiver.
-// If the number of columns in a does not equal 3, Mul will panic.
+// Mul will panic if a does not have 3 rows, b does not have 3 columns, or the
+// number of columns in a does not equal the number of rows in b.
 func (m *Mat) Mul(a, b mat.Matrix) {
 	ra, ca := a.Dims()
 	rb, cb := b.Dims()
